@@ -1,7 +1,7 @@
 """C01 - threshold soundness."""
 import random
 
-from ..engines import envelope, inplace
+from ..engines import envelope, inplace, threads
 from ..monitors import boundary, probes
 from ..refs import canonjson, models, openpgp, schema
 
@@ -29,6 +29,8 @@ def plan(tier, seed):
     n = SHARDS[tier]
     specs = [{"kind": "env", "count": N[tier] // n} for _ in range(n)]
     specs.append({"kind": "inplace", "count": 60 if tier == "quick" else 900})
+    for T in ([4, 8] if tier == "quick" else [2, 4, 8, 16, 16]):
+        specs.append({"kind": "threads", "threads": T, "count": 300 if tier == "quick" else 2500})
     return specs
 
 
@@ -74,7 +76,21 @@ def run_inplace(spec, rec, lib):
     rec.sample({"inplace_history": "long-lived envelope / key list mutated in place between verify_signable calls"})
 
 
+def run_threads(spec, rec, lib):
+    """schedules: concurrent verifications of genuine and forged envelopes must not share any tally"""
+    rng = random.Random(spec["seed"])
+    for case, model, out in threads.run(lib, rng, spec["count"], spec["threads"], rec, spec["seed"]):
+        rec.case("thr|%d|%s" % (spec["threads"], envelope.distinct_key(case)))
+        if out.accepted and model.v == models.REJECT:
+            rec.violation("unsound-accept/verify_signable/under-threads",
+                          "accepted under %d concurrent threads with %d counting signers for threshold %r (sequentially correct: the "
+                          "verdict depends on what other threads verify)" % (spec["threads"], len(model.counted), case["threshold"]), case)
+    rec.sample({"threads": spec["threads"], "calls": spec["count"]})
+
+
 def run_shard(spec, rec, lib):
+    if spec.get("kind") == "threads":
+        return run_threads(spec, rec, lib)
     if spec.get("kind") == "inplace":
         return run_inplace(spec, rec, lib)
     rng = random.Random(spec["seed"])
